@@ -156,9 +156,16 @@ pub(crate) mod verif_shims {
 		reader: R,
 		limit: usize,
 	) -> Vec<io::Result<(String, bool)>> {
-		Chunker::new(reader)
-			.take(limit)
-			.map(|doc| doc.map(|doc| (doc.content().to_owned(), doc.is_collection())))
-			.collect()
+		// Like every caller in the crate, stop at the first error: the chunker
+		// is not meant to be polled again after it failed.
+		let mut items = vec![];
+		for doc in Chunker::new(reader).take(limit) {
+			let failed = doc.is_err();
+			items.push(doc.map(|doc| (doc.content().to_owned(), doc.is_collection())));
+			if failed {
+				break;
+			}
+		}
+		items
 	}
 }
